@@ -11,9 +11,9 @@ import (
 
 // Rule is one rule instance family of a property.
 type Rule struct {
-	ID   string
-	Doc  string
-	Run  func(c *an.Ctx)
+	ID  string
+	Doc string
+	Run func(c *an.Ctx)
 	// Alias names a rule of another property that this rule re-runs under
 	// its own id (mechanisms shared between properties).
 	Alias string
